@@ -830,7 +830,7 @@ func Run(tier string) {
 
 	run.Set("evaluations", c.evals)
 	run.Set("distinct_nontrivial", c.nontr.Len())
-	run.Set("rule", "positive space generated from the grammar (full product of core dimensions; all 257 protocols, 71 address forms incl. every prefix length 0..32 with host bits set, all port-list shapes of the pool, spacing variants, each against every core combination of the other dimensions' representatives; thorough adds the pairwise products address form x address form, port-list form x port-list form and protocol x address form), each rule parsed and packed with and without the uplink swap; negative space = every single-token deletion/duplication/adjacent swap/replacement from a 33-entry menu on 48 base rules and all byte strings of length <=2 (thorough 3) over 12 symbols; distinct_nontrivial = distinct grammar rules (whitespace-normalised) that were compared field by field")
+	run.Set("rule", "positive space generated from the grammar (full product of core dimensions; all 257 protocols, 71 address forms incl. every prefix length 0..32 with host bits set, all port-list shapes of the pool, spacing variants, each against every core combination of the other dimensions' representatives; thorough adds the pairwise products address form x address form, port-list form x port-list form and protocol x address form), each rule parsed and packed with and without the uplink swap; SDF Filter IE level (4 source interfaces x filter id) and PDI level (4 source interfaces x Source Interface before / after / between the SDF Filter IEs x 1-2 filters): swap iff the PDI's source interface is Access; negative space = every single-token deletion/duplication/adjacent swap/replacement from a 33-entry menu on 48 base rules and all byte strings of length <=2 (thorough 3) over 12 symbols; distinct_nontrivial = distinct grammar rules (whitespace-normalised) that were compared field by field")
 	run.Set("exhaustive", true)
 	run.Set("samples", c.smp.List())
 	run.Set("positive_evaluations", positives)
